@@ -174,6 +174,18 @@ def replay_case(ctx, seed):
                 nmut += mutate_deep(o.value)
             for o in pb.playback_outputs:
                 nmut += mutate_deep(o.value)
+            # the played recording that comes with the result is read AFTER the outputs handed out were normalised in place
+            # (a result extractor popping a field, a comparator sorting a list): it still says what was recorded
+            for key, val in ro_snap:
+                ctx.count('original_recording_reads_after_mutating_outputs')
+                try:
+                    again = pb.original_recording.get_data(key)
+                except Exception as ex:
+                    ctx.violation('reading the played recording after mutating the recorded outputs raised %s' % type(ex).__name__, dict(w, key=key))
+                    break
+                if not teq(again, val):
+                    ctx.violation('the recording that comes with a Playback changed when the recorded outputs it handed out were mutated', dict(w, key=key))
+                    break
             nmut += mutate_deep(pb.original_recording.get_metadata())
         ctx.case({'seed': seed, 'kind': kind, 'prog': describe(prog)}, nontrivial=True)
         ctx.count('replay_pairs')
@@ -340,6 +352,30 @@ def copy_case(ctx, seed):
             if mains:
                 faults[rng.choice(mains)] = 'force'
                 ctx.count('copy_cases_kept_by_enforced_sampling_only')
+        if (seed // 5) % 3 == 0:
+            # earlier on this long-lived recorder: values that could NOT be copied (they hold a live resource), a dict and a list
+            from vlib.programs import Unencodable, clone as _clone_prog
+            from playback.tape_recorder import RecordingParameters
+
+            class EarlierOp(object):
+                @rec.operation()
+                def execute(self):
+                    return [self.read_dict(), self.read_list()]
+
+                @rec.intercept_input('earlier.dict')
+                def read_dict(self):
+                    return {'conn': Unencodable()}
+
+                @rec.intercept_input('earlier.list')
+                def read_list(self):
+                    return [Unencodable()]
+            EarlierOp = rec.recording_params(RecordingParameters(copy_data_on_intercepion=True))(EarlierOp)
+            try:
+                EarlierOp().execute()
+            except Exception:
+                pass
+            del spy.log[:]
+            ctx.count('copy_cases_after_an_uncopyable_value_on_the_same_recorder')
         live = Built(prog, rec, World(prog['seed_world'], raise_rate=0.0), faults=faults)
         live.snapshot = True
         live.run('live')
